@@ -522,9 +522,9 @@ fn main() {
             let now = HEARTBEAT.load(Ordering::Relaxed);
             if now == last {
                 idle += 1;
-                if idle > 40 {
+                if idle > 180 {
                     // stdout is locked by the main thread: report on stderr, the exit code tells the check
-                    eprintln!("BLOCKED the harness thread made no progress for 10 s of wall-clock time: a synchronous call (Sender::send) blocks");
+                    eprintln!("BLOCKED the harness thread made no progress for 45 s of wall-clock time: a synchronous call (Sender::send) blocks");
                     std::process::exit(3);
                 }
             } else {
